@@ -410,7 +410,7 @@ crate::harnesses! {
     @stretch c02_mul_8[4] => mul(8, 255);
     @stretch c02_add_16_s15[4] => add(16, 15);
     @quick c02_unary_8[4] => unary(8, 255);
-    c02_unary_64_s16[4] => unary(64, 16);
+    @stretch c02_unary_64_s16[4] => unary(64, 16);
     @quick c02_zext_8_16[4] => zext(8, 16, 255);
     c02_zext_8_64[4] => zext(8, 64, 255);
     @quick c02_piece_8_8[4] => piece(8, 8, 255);
